@@ -21,6 +21,10 @@ mod eqrel_only011__ser;
 mod eqrel_plain__ser;
 mod eqrel_plain__par;
 mod eqrel_plain__pari;
+mod eqrel_plain__perm1;
+mod eqrel_plain__perm2;
+mod eqrel_plain__ren;
+mod eqrel_plain__permpar;
 
 fn lookup(name: &str) -> fn() -> Box<dyn Driven> {
    match name {
@@ -37,6 +41,10 @@ fn lookup(name: &str) -> fn() -> Box<dyn Driven> {
       "eqrel_plain__ser" => eqrel_plain__ser::make,
       "eqrel_plain__par" => eqrel_plain__par::make,
       "eqrel_plain__pari" => eqrel_plain__pari::make,
+      "eqrel_plain__perm1" => eqrel_plain__perm1::make,
+      "eqrel_plain__perm2" => eqrel_plain__perm2::make,
+      "eqrel_plain__ren" => eqrel_plain__ren::make,
+      "eqrel_plain__permpar" => eqrel_plain__permpar::make,
       _ => panic!("no such program variant in this shard: {}", name),
    }
 }
